@@ -22,6 +22,6 @@ C07_TopoModule_eq_Spec == SetOf(C.unsup) = UnsuppliedTopo(F)
 \* second sentence of C07
 C07_DeadElementsZero == C.conv_ac => Len(C.dead_nonzero) = 0
 C07_LiveBusesFinite == C.conv_ac => Len(C.live_nonfinite) = 0
-\* a configuration with at least one energised reference must be solvable (otherwise the antecedent hides everything)
+\* conformance only (TopoC07Conf.cfg, reported as divergence): a configuration with an energised reference should be solvable
 C07_SolvedWhenRef == (RefNodes(F) # {}) => C.conv_ac /\ C.conv_dc
 =============================================================================
